@@ -3,19 +3,8 @@ Shares the model coq/models/TaskEngine.v and the driver harness/overlay/overlord
 
 
 def classify(case):
-    # finding 11: only the dedicated driver entry (mode f11, monitor TaskEngine.f11_fail = `a user abort issued on an
-    # UNREADY change panicked with "unexpectedly became unready"`) can map to the known key; any failure of the
-    # general C03 monitor (driver entry hist) is reported as a violation.
-    i = case.get("input") or {}
-    if i.get("mode") != "f11":
-        return None
-    steps = case.get("observed") or []
-    if not steps:
-        return None
-    last = steps[-1]
-    was_ready = steps[-2]["obs"]["ready"] if len(steps) > 1 else False
-    if last["ev"]["k"] == "abort" and last["obs"]["panic"] and not was_ready:
-        return "abort-unready-transient-ready"
+    # finding 11 (Change.Abort on an unready change panicked) was repaired in /repo by d3068df: nothing maps to a known
+    # key any more; a panic seen by the f11 regression entry is an ordinary violation.
     return None
 
 
@@ -50,9 +39,9 @@ SPEC = dict(
     trusted_base=[
         "hand-written model coq/models/TaskEngine.v of overlord/state (change.go Status/isChangeWaiting/isTaskWaiting/detectChangeReady/taskStatusChanged/markReady/Abort/Err, task.go SetStatus/changeStatus), tied by the differential run (harness/overlay/overlord/state/zz_verif_c01_test.go)",
         "goroutine scheduling is modelled by the event list (see C01); change-update notices and Change.SetStatus (explicit change status) are not modelled",
-        "abort_change_fixed in the model is the proposed repair notes/C03-fix.diff, not code that exists in /repo",
+        "the model's abort (quiet status rewrite, then one readiness evaluation) mirrors Change.deferReadyDetection of commit d3068df (notes/C03-fix.diff as applied)",
     ],
-    assumptions=["PARTIAL: proved: Status is ready iff all tasks are ready; Status equals the priority aggregate when no task is in Wait; the ready flag is never reset (all event lists); over all histories WITHOUT user aborts: no panic, IsReady <-> all tasks ready, running handlers belong to unready tasks, a ready change is final; finding 11 witness and the repair on it. NOT proved, only monitored: settling (liveness), the Wait branch of the aggregate against the memo-free statement, ready-once for histories with user aborts of unready changes (false on the current code: finding 11), Err.",
-                 "user aborts are issued on unready changes only (daemon.abortChange checks IsReady); the driver also aborts ready changes occasionally to show the guard is needed (C03_abort_ready_refuted) and the monitor ignores those",
-                 "KNOWN FINDING abort-unready-transient-ready (finding 11): Change.Abort on an unready change can panic; recorded, not repaired; proposed fix in notes/C03-fix.diff"],
+    assumptions=["PARTIAL: proved: Status is ready iff all tasks are ready; Status equals the priority aggregate when no task is in Wait; the ready flag is never reset (all event lists); over all histories in which user aborts hit unready changes only: no panic, IsReady <-> all tasks ready, running handlers belong to unready tasks, an abort of an unready change never panics nor marks the change ready while a task is unready, a ready change is final. NOT proved, only monitored: settling (liveness), the Wait branch of the aggregate against the memo-free statement, Err.",
+                 "user aborts are issued on unready changes only (daemon.abortChange checks IsReady); the driver also aborts ready changes occasionally to show the guard is needed (C03_abort_ready_refuted) and the monitor ignores those panics only",
+                 "finding 11 (Change.Abort on an unready change could panic) is repaired in /repo (d3068df, KNOWN_FINDINGS `fixed:`); the f11 driver entry is its regression test"],
 )
